@@ -563,8 +563,21 @@ func histSuite(name string, quickN, thoroughN int) suiteFunc {
 	}
 }
 
+var schedKinds = map[string][]string{
+	"C03": {"copies", "consecutive"},
+	"C05": {"join-copies"},
+	"C07": {"copies", "consecutive"},
+	"C09": {"copies"},
+}
+
 func init() {
 	for _, n := range []string{"C01", "C02", "C03", "C04", "C05", "C06", "C07", "C08", "C09", "C10"} {
-		suites[n] = histSuite(n, 120, 2500)
+		hs := histSuite(n, 120, 2500)
+		if kinds, ok := schedKinds[n]; ok {
+			ss := schedSuite("sched"+n, kinds, 24, 400)
+			suites[n] = func(rng *rand.Rand, tier string, w *Writer) { hs(rng, tier, w); ss(rng, tier, w) }
+		} else {
+			suites[n] = hs
+		}
 	}
 }
